@@ -3,6 +3,7 @@
 package pfcpiface
 
 import (
+	"time"
 	"math/rand"
 
 	"github.com/wmnsk/go-pfcp/ie"
@@ -93,4 +94,34 @@ func H_C14_endmarker() {
 		vAssert("marker-udp-2152", vAnd(f.sport == 2152, f.dport == 2152))
 		vAssert("marker-is-gtpu-end-marker", vAnd(f.gtpType == 254, f.proto == 17))
 	}
+}
+
+// H_C14_up4queue: on UP4, End Markers travel through a queue that one sender
+// loop (started once) drains. After the datapath is initialised again - what
+// tryConnect does on every P4Runtime reconnect - SendEndMarkers must still write
+// to the queue that loop reads, and what is queued is what was handed over.
+func H_C14_up4queue() {
+	st := vNewUP4(8, 0, 0, nil)
+	u := st.up4
+	u.enableEndMarker = true
+	vAssert("first-initialisation", u.initialize(true) == nil)
+	q0 := u.endMarkerChan
+	vAssert("queue-created-with-the-sender-loop", q0 != nil)
+	n := 1 + vChoose("reconnects", 2)
+	for k := 0; k < n; k++ {
+		vAssert("re-initialisation", u.initialize(vBool("clear_state")) == nil)
+	}
+	vAssert("the-sender-loop's-queue-is-still-the-one-in-use", u.endMarkerChan == q0)
+	pkts := [][]byte{{1, 2, 3}, {4, 5}}
+	vAssert("markers-accepted", u.SendEndMarkers(&pkts) == nil)
+	// under the engine the sender loop is not run: the markers sit in its queue;
+	// natively the real loop takes them and sends them on the (recording) stream
+	stream := u.p4client.stream.(*vStream)
+	if !vInEngine() {
+		for w := 0; w < 200 && stream.nsent() < 2; w++ {
+			time.Sleep(time.Millisecond)
+		}
+	}
+	vAssert("markers-reach-the-sender-loop", len(q0)+stream.nsent() == 2)
+	vCover("up4queue")
 }
